@@ -5,6 +5,11 @@ HERE = os.path.dirname(os.path.dirname(os.path.abspath(__file__)))
 ALL = ["C%02d" % i for i in range(1, 21)]
 # id -> (category, engine, technique, level text, level note, design ref)
 CHECKS = {
+ "C18": ("model_checking", "E1-choice",
+   "complete enumeration of sources over {a,b} up to length 8/10 x every valid tokenisation, copy tokens at every chunk position, multi-chunk containers through the real decompressor; choice-tree exploration of project layouts in three container formats",
+   "(a) every source over {a,b} of length <= 8 (thorough 10) in every valid tokenisation (literal or any legal copy token at each position; 27 k / 50 k containers), copy tokens with boundary offsets and lengths at every decompressed position 1..4095 (all 12 offset-width regimes), sources of 0..20000 bytes of four redundancy profiles compressed greedy / literal-only / raw, and two-chunk containers whose first chunk has every token count modulo 8, all decompressed by the real code and compared with the source or an independent reference expansion; (b) projects with 0-3 modules (source length, text offset 0/5/1000, compression mode, stream name different from module name, class/read-only/private records), 0-3 references of 5 kinds, optional compat-version record, code page 1252 (thorough 932), CFB layout, embedded in xlsm, xlsb and xls: module names, raw bytes, decoded text and reference names.",
+   "Trusted: gen/ovba.rs (compressor, dir stream from MS-OVBA 2.3.4.2, 2.4.1) and gen/cfb.rs; optional unicode records always present.",
+   "DESIGN.md §2 C18"),
  "C15": ("model_checking", "E1-choice",
    "complete enumeration of master formulas (templates x reference alphabet) x offsets through the real translator vs a reference shift; choice-tree exploration of group shapes end to end",
    "(a) 30 formula templates (function names ending in digits, sheet-qualified / quoted / non-ASCII sheet names, strings with cell-like text and doubled quotes, exponent numbers, names with digits) with 16 references (all absolute/relative combinations at A1, Z10, AA5, ZZ100) in every slot are translated by every offset of a window through the real replace_cell_names and compared with the piecewise reference shift; (b) groups of 7 shapes (1-D and 2-D) at 3 master positions with every master formula, a second group, swapped si order, a non-member cell inside the range, prefix and implicit references are read through worksheet_formula (<=2, thorough 3 deviations): every member must carry its translated formula, other cells theirs.",
